@@ -1136,7 +1136,25 @@ func (e *Exec) runMain(fn *ssa.Function) (end pathEnd) {
 		}
 		e.killGoroutines()
 	}()
-	e.callSSA(nil, 0, fn, nil, nil)
+	func() {
+		defer func() {
+			// a harness may declare that blocking forever is a violation (C07: publishers are never delayed)
+			if r := recover(); r != nil {
+				if pe, ok := r.(pathEnd); ok && pe.kind == endBlocked {
+					if lbl, ok := e.ext["blocked-label"].(string); ok && lbl != "" {
+						m := e.model
+						if m == nil {
+							m = smt.Model{}
+						}
+						e.violation(lbl, "execution blocked forever: "+pe.msg, m, "")
+						panic(pathEnd{endViolation, lbl})
+					}
+				}
+				panic(r)
+			}
+		}()
+		e.callSSA(nil, 0, fn, nil, nil)
+	}()
 	if e.abortEnd != nil {
 		return *e.abortEnd
 	}
